@@ -90,6 +90,7 @@ func (fe *FnExec) execInstr(fr *frame, st *State, in ssa.Instruction) {
 	case *ssa.Lookup:
 		if x.CommaOk {
 			fe.regs[x] = TupleV{E: []Val{fe.freshVal(x.Type().(*types.Tuple).At(0).Type(), "mapv"), BoolV{fe.fresh("mapok", "Bool")}}}
+			fe.lookupAssumes(fr, st, x, fe.regs[x].(TupleV).E[0])
 		} else {
 			if isString(x.X.Type()) {
 				c := fe.val(x.X)
@@ -97,6 +98,7 @@ func (fe *FnExec) execInstr(fr *frame, st *State, in ssa.Instruction) {
 				fe.oblige(fr, "strindex", []string{"C09"}, st.pc, tAnd(sx("<=", "0", i), sx("<", i, fe.lenOf(c))), x.Pos(), "string index in range")
 			}
 			fe.regs[x] = fe.freshVal(x.Type(), "mapv")
+			fe.lookupAssumes(fr, st, x, fe.regs[x])
 		}
 	case *ssa.Slice:
 		fe.regs[x] = fe.doSlice(fr, st, x)
@@ -129,7 +131,17 @@ func (fe *FnExec) execInstr(fr *frame, st *State, in ssa.Instruction) {
 		fe.assume(sx("<", "0", r), "fresh object")
 		fe.regs[x.(ssa.Value)] = RefV{r}
 	case *ssa.MapUpdate:
-		// map contents are not tracked
+		// map contents are not tracked; contracts may assert what is stored
+		if fr.con != nil {
+			if cs := fr.con.Calls[fr.ords[in]]; cs != nil {
+				for _, a := range cs.Asserts {
+					ctx := fe.ctxFor(fr, st)
+					ctx.binds["arg0"], ctx.binds["key"], ctx.binds["value"] = fe.val(x.Map), fe.val(x.Key), fe.val(x.Value)
+					g := ctx.evalBool(a.X)
+					fe.oblige(fr, fmt.Sprintf("%s.assert:%s", fr.ords[in], a.Label), a.Props, st.pc, g, x.Pos(), a.Src)
+				}
+			}
+		}
 	case *ssa.MakeInterface:
 		fe.regs[x] = fe.doMakeInterface(st, x)
 	case *ssa.ChangeInterface:
@@ -575,7 +587,7 @@ func (fe *FnExec) doMakeInterface(st *State, x *ssa.MakeInterface) Val {
 	var ref Term
 	switch p := v.(type) {
 	case PtrV:
-		if p.Cell == nil && p.ElemOf == nil {
+		if p.Cell == nil && p.ElemOf == nil && !p.Interior {
 			ref = p.Base
 			if ref != "0" {
 				fe.ifaceType[ref] = p.Pointee
@@ -589,6 +601,9 @@ func (fe *FnExec) doMakeInterface(st *State, x *ssa.MakeInterface) Val {
 		ref = fe.fresh("iface", "Int")
 		fe.assume(sx("<", "1000", ref), "boxed value id (non-nil, not a sentinel)")
 		fe.assume(tEq(sx("payload", ref), termOf(v)), "boxed payload")
+		if pv, ok := v.(PtrV); ok {
+			fe.boxed[ref] = pv
+		}
 	}
 	fe.assume(tEq(sx("dyn", ref), tInt(int64(id))), "dynamic type "+typeName(ct))
 	return RefV{ref}
@@ -722,8 +737,8 @@ func (fe *FnExec) doReturn(fr *frame, st *State, x *ssa.Return) {
 	}
 	fr.rets = append(fr.rets, st.clone())
 	fr.retVals = append(fr.retVals, rv)
-	if fr.con == nil || fr.inlined {
-		return
+	if fr.con == nil || fr.inlined || fr.con.Trusted {
+		return // a trusted contract is assumed by callers; only the safety obligations of its body are generated
 	}
 	for _, en := range append(append([]Clause(nil), fr.con.Ensures...), fr.con.Checks...) {
 		ctx := fe.ctxFor(fr, st)
@@ -766,4 +781,22 @@ func callKeys(fr *frame) []string {
 		ks = append(ks, k)
 	}
 	return ks
+}
+
+// lookupAssumes: what a contract says about the values found in a map (a data-structure invariant established at
+// the map updates, which carry the matching assertions).
+func (fe *FnExec) lookupAssumes(fr *frame, st *State, x *ssa.Lookup, v Val) {
+	if fr.con == nil {
+		return
+	}
+	cs := fr.con.Calls[fr.ords[x]]
+	if cs == nil {
+		return
+	}
+	for _, a := range cs.Assumes {
+		ctx := fe.ctxFor(fr, st)
+		ctx.binds["arg0"], ctx.binds["key"], ctx.binds["value"] = fe.val(x.X), fe.val(x.Index), v
+		fe.assume(tImp(st.pc, ctx.evalBool(a.X)), "map invariant "+a.Label)
+		fe.eng.noteSiteAssume(fr.name, fr.ords[x], a)
+	}
 }
